@@ -38,7 +38,7 @@ var raceScenarios = []raceScenario{
 func raceMsg(k int) []byte {
 	rows, err := vbox.Block([]vbox.Point{{Metric: "m1", Tags: map[string]string{"host": "a"}, Field: "f", Type: "sum", Value: math.Pow(3, float64(k)), Timestamp: baseTime + 5000}})
 	if err != nil {
-		vevid.Fatal("block: %v", err)
+		vevid.OpFailed("block: %v", err)
 	}
 	return compressBlock(rows)
 }
@@ -60,21 +60,21 @@ func raceSetup(sc raceScenario) {
 	_ = os.RemoveAll(root)
 	n, err := openNode(root)
 	if err != nil {
-		vevid.Fatal("open node: %v", err)
+		vevid.OpFailed("open node: %v", err)
 	}
 	rw = &raceWorld{root: root, n: n}
 	// entry 0 creates every name, is replicated and flushed by a complete flush cycle
 	if err := n.part.WriteLog(raceMsg(0)); err != nil {
-		vevid.Fatal("append: %v", err)
+		vevid.OpFailed("append: %v", err)
 	}
 	rw.appended = 1
 	replica.VerifReplicaOnce(n.part)
 	if err := n.box.Flush(models.ShardID(1), queryRange); err != nil {
-		vevid.Fatal("flush: %v", err)
+		vevid.OpFailed("flush: %v", err)
 	}
 	for i := 0; i < sc.Pending; i++ {
 		if err := n.part.WriteLog(raceMsg(rw.appended)); err != nil {
-			vevid.Fatal("append: %v", err)
+			vevid.OpFailed("append: %v", err)
 		}
 		rw.appended++
 	}
